@@ -11,6 +11,17 @@ func VC19_DatabaseReadOnly() {
 	db, _ := vPreState()
 	t, owner, data, _ := vOpArgs(false)
 	vsym.Begin(db)
+	vsym.Concurrent(
+		func() { db.Bytes() },
+		func() { var m bytes.Buffer; db.Marshal(&m) },
+		func() { db.BytesExists(t, owner, data) },
+		func() { db.SigDataExists(t, &SignatureData{Owner: owner, Data: data}) },
+		func() {
+			if len(*db) > 0 {
+				db.Exists(t, (*db)[0])
+			}
+		},
+	)
 	b1 := db.Bytes()
 	var m1 bytes.Buffer
 	db.Marshal(&m1)
@@ -37,17 +48,6 @@ func VC19_DatabaseReadOnly() {
 	vsym.Assert(s1 == s2, "SigDataExists is repeatable")
 	vsym.Assert(l1 == l2, "Exists is repeatable")
 	vsym.AssertReadOnly("database operations")
-	vsym.Concurrent(
-		func() { db.Bytes() },
-		func() { var m bytes.Buffer; db.Marshal(&m) },
-		func() { db.BytesExists(t, owner, data) },
-		func() { db.SigDataExists(t, &SignatureData{Owner: owner, Data: data}) },
-		func() {
-			if len(*db) > 0 {
-				db.Exists(t, (*db)[0])
-			}
-		},
-	)
 	vsym.Reach("end")
 }
 
@@ -60,6 +60,7 @@ func VC19_SignedUpdateReadOnly() {
 	var e efibytes
 	(*bytes.Buffer)(&e).Write(content)
 	vsym.Begin(&e)
+	vsym.Concurrent(func() { e.Bytes() }, func() { var m bytes.Buffer; e.Marshal(&m) })
 	b1 := e.Bytes()
 	var m1 bytes.Buffer
 	e.Marshal(&m1)
@@ -71,7 +72,6 @@ func VC19_SignedUpdateReadOnly() {
 	vsym.AssertBytesEq(m1.Bytes(), content, "Marshal writes the content")
 	vsym.AssertBytesEq(m2.Bytes(), content, "Marshal is repeatable")
 	vsym.AssertReadOnly("signed-update value operations")
-	vsym.Concurrent(func() { e.Bytes() }, func() { var m bytes.Buffer; e.Marshal(&m) })
 	vsym.Reach("end")
 }
 
@@ -84,11 +84,11 @@ func VC19_DescriptorReadOnly() {
 		return
 	}
 	vsym.Begin(d)
+	vsym.Concurrent(func() { var m bytes.Buffer; d.Marshal(&m) })
 	var m1, m2 bytes.Buffer
 	d.Marshal(&m1)
 	d.Marshal(&m2)
 	vsym.AssertBytesEq(m2.Bytes(), m1.Bytes(), "descriptor Marshal is repeatable")
 	vsym.AssertReadOnly("descriptor operations")
-	vsym.Concurrent(func() { var m bytes.Buffer; d.Marshal(&m) })
 	vsym.Reach("end")
 }
